@@ -93,6 +93,17 @@ CHECKS = {
         design="DESIGN.md 5 (C10)",
         technique="TLA+ spec + TLC exhaustive; spec->code replay of every evaluated state",
     ),
+    "C11": dict(
+        engine="tla-idmatching",
+        text="IdMatching.tla specifies identity-based pairing of ROI-less 2-D objects: generic objects pair iff same uuid and camera; traffic lights "
+        "pair by equal label (and uuid when uuid-first) then by uuid, as the SET of admissible outcomes of the label stage; scores as exact "
+        "rationals. TLC checks same-camera, each-object-once, label-stage maximality, scores within [0,1] and the perfect case over sampled inputs "
+        "(<= 3 objects per side, 3 uuids, 3 labels, 3 cameras incl. cam_traffic_light, both uuid-first settings); each state is replayed through "
+        "get_object_results(CLASSIFICATION2D), ClassificationAccuracy and ClassificationMetricsScore._summarize.",
+        note="uuids unique per side and camera; undefined scores may be any non-finite value (the library mixes inf and nan)",
+        design="DESIGN.md 5 (C11)",
+        technique="TLA+ spec + TLC; spec->code replay of every state",
+    ),
     "C12": dict(
         engine="tla-sensing",
         text="Sensing.tla decides point-in-scaled-rotated-box exactly on a lattice (Pythagorean headings, rational scales, integer cross products "
